@@ -209,4 +209,4 @@ def file_offset_index_follows_file(ctx):
                       "the file is shrunk (set_len) but index_end_pos keeps offsets of the bytes that were cut off%s: end_pos_before() of a later truncation returns a position of "
                       "the OLD file layout, so a conflict truncation right above the purge boundary does not remove the stale tail (it comes back at restart) or cuts mid-entry"
                       % (" (new offsets are inserted before the map is cleared)" if early_ins else ""), loc(b, bi), (wit or early_ins) and bpath(b, wit or early_ins))
-    ctx.floor("C18-e", n, 4, "File::set_len calls in the File log store (reset x2, purge, truncate, replace_range)")
+    ctx.floor("C18-e", n, 3, "File::set_len calls in the File log store (reset, truncate, replace_range; purge too unless it writes a new file and renames)")
